@@ -3,15 +3,19 @@ import Model.QueueSpec
 /-!
 Line protocol of engine `queue`.
 
-`script <short 0|1> <op> <op> …` — model-guided run (T-step). Ops:
+`script <mode 0|1|0t|1t> <op> <op> …` — model-guided run (T-step). Mode: `1` = short flush interval,
+`t` = tiny `shutdown_timeout`. Ops:
   `new:<cap>` (must be first) | `append:<h>:<o|v|i>` | `clone:<h>` | `drop:<h>` | `gate:<k>` | `flush` |
-  `forget` | `dropjoin`
-After every op the writer is run to quiescence (`Queue.settle`) under the clock on which no
-deadline fires; with `short = 1` (flush interval of a few ms in the real run) a parked writer
-additionally performs one timed-out lap of the outer loop. Reply: one observable per op joined by `;`:
-  `next=<ids> ent=<n> fl=<n> ov=<n> done=<ids> closed=<0|1> joined=<0|1>`
+  `forget` | `dropjoin` | `fclose` | `fopen` (the flush gate: while shut every `stream.flush()` blocks)
+After every op the writer is run to quiescence (`settleG`: until it parks, is held inside `next` or
+`flush`, or has exited) under the clock on which no flush-interval deadline fires (the shutdown
+deadline fires iff `t`); with a short interval a parked writer additionally performs one timed-out
+lap of the outer loop. Reply: one observable per op joined by `;`:
+  `next=<ids> ent=<n> fl=<n> ov=<n> done=<ids> closed=<0|1> joined=<0|1> fblk=<0|1>`
 (`next` = push indices handed to the stream in order, `ent` = `next` calls entered, `fl` = `flush`
-calls (`*` when short), `done` = completed flush futures, sorted).
+calls returned (`*` when short), `done` = completed flush futures, sorted, `fblk` = writer held inside `flush`).
+If the run consults the clock where the real outcome is timing dependent (`clockDependent`) the reply
+is the single word `clock-dependent` and the harness skips the script.
 
 `order <producers> <overflowed 0|1> <final 0|1> | <pushes p.k …> | <delivered p.k …>` — T-trace: evaluates
 `Queue.Spec.acceptOrder` (theorems `c01_spec_accepts`, `c09_spec_accepts`) on a recorded history; `-` = empty list.
@@ -36,6 +40,7 @@ def parseRes (s : String) : Option Res :=
 
 inductive Op where
   | new (cap : Nat) | append (h : Nat) (r : Res) | clone | drop | gate (k : Nat) | flush | forget | dropjoin
+  | fclose | fopen
 
 def parseOp (s : String) : Option Op :=
   match s.splitOn ":" with
@@ -47,6 +52,8 @@ def parseOp (s : String) : Option Op :=
   | ["flush"] => some .flush
   | ["forget"] => some .forget
   | ["dropjoin"] => some .dropjoin
+  | ["fclose"] => some .fclose
+  | ["fopen"] => some .fopen
   | _ => none
 
 def completedIds (log : List Obs) : List Nat :=
@@ -61,67 +68,132 @@ def insertSorted (x : Nat) : List Nat → List Nat
 
 def sortNat (xs : List Nat) : List Nat := xs.foldr insertSorted []
 
-def observe (short : Bool) (s : QState) : String :=
+/-- run configuration: `short` = flush interval of a few ms (timed-out laps happen), `tiny` =
+`shutdown_timeout` of 1 ns (the deadline test of the final drain, made every 32 entries, always fires) -/
+structure RunCfg where
+  short : Bool
+  tiny : Bool
+
+/-- guided-run state: the model state, the `next` permits left, whether the flush gate is shut, and
+whether the run consulted the clock at a point where the real outcome depends on timing -/
+structure GState where
+  s : QState
+  permits : Nat
+  fclosed : Bool
+  dep : Bool
+
+/-- is the next writer step going to call `stream.flush()` (where the flush gate can hold it)? -/
+def atFlush (s : QState) : Bool :=
+  match s.wpc with
+  | .outerFlush => true
+  | .shutFlush => true
+  | .afterDrain st n => (hww s.cap st n s.waiting s.ebw s.sigs).flushed
+  | _ => false
+
+/-- is the writer currently blocked inside `flush`? -/
+def flushBlocked (g : GState) : Bool := g.fclosed && atFlush g.s
+
+def observe (cfg : RunCfg) (g : GState) : String :=
+  let s := g.s
   let d := delivered s.log
   let ent := d.length + (if atNext s then 1 else 0)
   let closed := if s.log.contains .closed then "1" else "0"
   let joined := if s.log.contains .joinReturned then "1" else "0"
-  let fl := if short then "*" else toString (flushCount s.log)
-  s!"next={natList (d.map (·.2))} ent={ent} fl={fl} ov={s.overflow} done={natList (sortNat (completedIds s.log))} closed={closed} joined={joined}"
+  let fl := if cfg.short then "*" else toString (flushCount s.log)
+  s!"next={natList (d.map (·.2))} ent={ent} fl={fl} ov={s.overflow} done={natList (sortNat (completedIds s.log))} closed={closed} joined={joined} fblk={if flushBlocked g then 1 else 0}"
 
 def fuel : Nat := 100000
 
 /-- apply a list of events, all of which must be enabled -/
 def applyAll (s : QState) (evs : List Ev) : Option QState := run s evs
 
+/-- the clock of a guided run: no flush-interval deadline fires (`quietClock`); the shutdown deadline
+fires at every test iff the timeout is tiny -/
+def clockFor (cfg : RunCfg) (s : QState) : Clock :=
+  match s.wpc with
+  | .shutHolding _ _ => { quietClock false with deadlineHit := cfg.tiny }
+  | _ => quietClock false
+
+/-- does this step consult the wall clock in a way the harness cannot control? (short interval:
+the deadline test of a main-loop drain at a multiple of 32 entries; and, with the flush gate shut, the
+`now >= next_flush` test while wakers wait, which decides which `flush` call blocks) -/
+def clockDependent (cfg : RunCfg) (g : GState) : Bool :=
+  cfg.short && (match g.s.wpc with
+    | .holding _ n => (n + 1) % 32 == 0
+    | .checkTime => g.fclosed && !g.s.waiting.isEmpty
+    | _ => false)
+
+/-- run the writer until it blocks: in `park`, inside `next` without a permit, inside `flush` with the
+flush gate shut, or because it has exited -/
+def settleG : Nat → RunCfg → GState → GState
+  | 0, _, g => g
+  | fuel + 1, cfg, g =>
+    if atNext g.s then
+      match g.permits with
+      | 0 => g
+      | k + 1 =>
+        match wstep g.s (clockFor cfg g.s) with
+        | none => g
+        | some s' => settleG fuel cfg { g with s := s', permits := k, dep := g.dep || clockDependent cfg g }
+    else if flushBlocked g then g
+    else match wstep g.s (clockFor cfg g.s) with
+      | none => g
+      | some s' => settleG fuel cfg { g with s := s', dep := g.dep || clockDependent cfg g }
+
 /-- run the writer to quiescence (plus one timed-out lap of the outer loop in short mode) -/
-def quiesce (short : Bool) (s : QState) (permits : Nat) : QState × Nat :=
-  let (s1, p1) := settle fuel (quietClock false) s permits
-  let (s2, p2) :=
-    if short && s1.wpc == .parking then
-      match wstep s1 (lateClock false) with
+def quiesce (cfg : RunCfg) (g : GState) : GState :=
+  let g1 := settleG fuel cfg g
+  let g2 :=
+    if cfg.short && g1.s.wpc == .parking then
+      match wstep g1.s (lateClock false) with
       | some a => match wstep a (lateClock false) with
-        | some b => settle fuel (quietClock false) b p1
-        | none => (a, p1)
-      | none => (s1, p1)
-    else (s1, p1)
+        | some b => settleG fuel cfg { g1 with s := b }
+        | none => { g1 with s := a }
+      | none => g1
+    else g1
   -- `drop(join_handle)` returns as soon as the thread has exited
-  match step s2 .dropJoinEnd with
-  | some s3 => (s3, p2)
-  | none => (s2, p2)
+  match step g2.s .dropJoinEnd with
+  | some s3 => { g2 with s := s3 }
+  | none => g2
 
 def resOf (results : List Res) : Ent → Res := fun e => results.getD e.2 .ok
 
-def execOp (short : Bool) (st : QState × Nat) : Op → Option (QState × Nat)
+def execOp (cfg : RunCfg) (g : GState) : Op → Option GState
   | .new _ => none
   | .append h _ => do
-    let s ← applyAll st.1 [.push h, .unpark h]
-    some (quiesce short s st.2)
-  | .clone => do some (quiesce short (← step st.1 .clone) st.2)
-  | .drop => do some (quiesce short (← step st.1 .dropHandle) st.2)
-  | .gate k => some (quiesce short st.1 (st.2 + k))
+    let s ← applyAll g.s [.push h, .unpark h]
+    some (quiesce cfg { g with s := s })
+  | .clone => do some (quiesce cfg { g with s := (← step g.s .clone) })
+  | .drop => do some (quiesce cfg { g with s := (← step g.s .dropHandle) })
+  | .gate k => some (quiesce cfg { g with permits := g.permits + k })
   | .flush => do
-    let i := st.1.marks.length
-    let s ← applyAll st.1 [.flushSend, .flushUnpark i]
-    some (quiesce short s st.2)
-  | .forget => do some (quiesce short (← step st.1 .forget) st.2)
+    let i := g.s.marks.length
+    let s ← applyAll g.s [.flushSend, .flushUnpark i]
+    some (quiesce cfg { g with s := s })
+  | .forget => do some (quiesce cfg { g with s := (← step g.s .forget) })
   | .dropjoin => do
-    let s ← applyAll st.1 [.dropJoinBegin, .dropJoinUnpark]
-    some (quiesce short s st.2)
+    let s ← applyAll g.s [.dropJoinBegin, .dropJoinUnpark]
+    some (quiesce cfg { g with s := s })
+  | .fclose => some (quiesce cfg { g with fclosed := true })
+  | .fopen => some (quiesce cfg { g with fclosed := false })
 
-def runScript (short : Bool) (ops : List Op) : Option (List String) :=
+def runScript (cfg : RunCfg) (ops : List Op) : Option (List String) :=
   match ops with
   | .new cap :: rest =>
     let results := rest.filterMap fun | .append _ r => some r | _ => none
-    let s0 := quiesce short (init cap (resOf results) true) 0
-    let rec go (st : QState × Nat) (ops : List Op) (acc : List String) : Option (List String) :=
+    let g0 := quiesce cfg ⟨init cap (resOf results) true, 0, false, false⟩
+    let rec go (g : GState) (ops : List Op) (acc : List String) : Option (List String) :=
       match ops with
-      | [] => some acc.reverse
-      | op :: ops => match execOp short st op with
+      | [] => if g.dep then some ["clock-dependent"] else some acc.reverse
+      | op :: ops => match execOp cfg g op with
         | none => none
-        | some st' => go st' ops (observe short st'.1 :: acc)
-    go s0 rest [observe short s0.1]
+        | some g' => go g' ops (observe cfg g' :: acc)
+    go g0 rest [observe cfg g0]
   | _ => none
+
+def parseMode (s : String) : Option RunCfg :=
+  if s == "0" then some ⟨false, false⟩ else if s == "1" then some ⟨true, false⟩
+  else if s == "0t" then some ⟨false, true⟩ else if s == "1t" then some ⟨true, true⟩ else none
 
 /-! waker state machine alone -/
 
@@ -199,9 +271,9 @@ def handleSpec (ws : List String) : String :=
 def handle (line : String) : String :=
   match (line.trimAscii.toString.splitOn " ").filter (· ≠ "") with
   | "script" :: sh :: ops =>
-    match (if sh == "0" then some false else if sh == "1" then some true else none), ops.mapM parseOp with
-    | some short, some ops =>
-      match runScript short ops with
+    match parseMode sh, ops.mapM parseOp with
+    | some cfg, some ops =>
+      match runScript cfg ops with
       | some obs => joinWith ";" obs
       | none => "bad-op"
     | _, _ => "bad-op"
